@@ -127,12 +127,12 @@ theorem group_by_reduce_indexer (k : Kind) (red : Red) (init : Val) (codes : Lis
     induction ps with
     | nil =>
       intro sel st m hs h
-      rw [takePositions_nil] at hs
+      rw [takePos_nil] at hs
       cases hs
       exact ⟨rfl, h⟩
     | cons p ps ih =>
       intro sel st m hs h
-      obtain ⟨row, rest, hrow, hrest, rfl⟩ := (takePositions_cons _ _ _ _).mp hs
+      obtain ⟨row, rest, hrow, hrest, rfl⟩ := (takePos_cons_iff _ _ _ _).mp hs
       have hs1 := loop2_step_rel k red codes vals hlen tlen tlen st m p row hrow h
       have := ih rest _ _ hrest hs1.2
       simp only [List.foldl_cons]
